@@ -84,6 +84,8 @@ pub struct World {
     pub keep_served: bool,
     /// Do not list nodes that are silent at the moment.
     pub omit_silent: bool,
+    /// Names appended to every node list (ghosts, the querier's own id, router addresses...).
+    pub extra_names: Vec<(Id, SocketAddr)>,
 }
 
 /// Tagged peer address: identifies (reply sequence number, index within the reply).
@@ -140,6 +142,7 @@ impl World {
             exact_reply_latency: None,
             keep_served: true,
             omit_silent: false,
+            extra_names: Vec::new(),
         }
     }
 
@@ -217,6 +220,7 @@ impl World {
                     w.closest_at(target, w.k, if w.include_self { None } else { Some(ni) }, v6, Some(now))
                         .into_iter()
                         .map(|i| (w.nodes[i].id, w.nodes[i].addr))
+                        .chain(w.extra_names.iter().filter(|(_, a)| a.is_ipv6() == v6).copied())
                         .collect()
                 };
                 match q {
